@@ -49,6 +49,41 @@ pub fn run(args: &Args) -> Report {
                 rep.violation("C13|recorded|seed-or-grammar", &format!("{}: {e}", f.name), replay.clone());
             }
         }
+        // the interaction elements handed to the AIR are exactly the challenges drawn between the two
+        // trace commitments: as many fields as challenges, each challenge used once
+        {
+            use swiftness_air::layout::LayoutTrait;
+            use swiftness_transcript::transcript::Transcript;
+            use swiftness_transcript::verif::{self as vh, Event};
+            let seed = proof.public_input.get_hash(proof.config.n_verifier_friendly_commitment_layers);
+            vh::start(u64::MAX);
+            let fields_txt: Option<String> = crate::with_layout!(f.layout.as_str(), L, {
+                let r = catch(|| {
+                    let mut t = Transcript::new(seed);
+                    let tc = L::traces_commit(&mut t, &proof.unsent_commitment.traces, proof.config.traces.clone());
+                    serde_json::to_string(&tc.interaction_elements).unwrap()
+                });
+                r.ok()
+            });
+            let ev = vh::take();
+            if let Some(txt) = fields_txt {
+                let mut fields: Vec<Felt> = vec![];
+                for part in txt.split("\"0x").skip(1) {
+                    let hexs: String = part.chars().take_while(|c| c.is_ascii_hexdigit()).collect();
+                    fields.push(Felt::from_hex(&format!("0x{hexs}")).unwrap());
+                }
+                let sqz: Vec<Felt> = ev.iter().filter_map(|e| if let Event::Squeeze { out, .. } = e { Some(*out) } else { None }).collect();
+                rep.inc("interaction_elements.structs_checked");
+                let mut a = fields.clone();
+                a.sort();
+                let mut b = sqz.clone();
+                b.sort();
+                let distinct = { let mut d = a.clone(); d.dedup(); d.len() == a.len() };
+                if a != b || !distinct {
+                    rep.violation("C08|recorded|interaction-elements-struct", &format!("{}: the {} interaction elements handed to the AIR are not exactly the {} distinct challenges drawn after the original trace commitment", f.name, fields.len(), sqz.len()), replay.clone());
+                }
+            }
+        }
         let sq = trace::squeezed(&run);
         let lg = &loaded.log;
         let mut want: Vec<(String, Felt)> = vec![];
